@@ -48,6 +48,10 @@ class Case:
     """One fit() call: configuration + the data the mocks hand out (all dyadic)."""
 
     def __init__(self, epochs, nb, nbv, mode, acc_on, ecb, cb_train, cb_val, t0, g0, rng, K=3):
+        import random
+        self.args = [epochs, nb, nbv, mode, acc_on, ecb, cb_train, cb_val, t0, g0]
+        self.case_seed = rng.randrange(1 << 30)        # all data of the case derive from this seed (used by --replay)
+        rng = random.Random(self.case_seed)
         self.epochs, self.nb, self.nbv, self.mode = epochs, nb, nbv, mode
         self.acc_on, self.ecb, self.cb_train, self.cb_val, self.t0, self.g0 = acc_on, ecb, cb_train, cb_val, t0, g0
         self.K = K
@@ -94,8 +98,15 @@ class Case:
                 labrows = [[Fraction(1 if j == l else 0) for j in range(K)] for l in labz]
         return {"outs": outs, "labz": labz, "labrows": labrows}
 
+    @classmethod
+    def from_descr(cls, d):
+        class R:
+            def randrange(self, n):
+                return d["case_seed"]
+        return cls(*d["args"], rng=R())
+
     def descr(self):
-        return {"epochs": self.epochs, "nb": self.nb, "nbv": self.nbv, "evaluator": self.mode, "accuracy": self.acc_on,
+        return {"args": self.args, "case_seed": self.case_seed, "epochs": self.epochs, "nb": self.nb, "nbv": self.nbv, "evaluator": self.mode, "accuracy": self.acc_on,
                 "epoch_callback": self.ecb, "on_train_epoch": self.cb_train, "on_validation_epoch": self.cb_val,
                 "model.training before": self.t0, "grad mode before": self.g0,
                 "batch sizes": self.tsizes, "val batch sizes": self.vsizes,
@@ -248,6 +259,61 @@ def run_case_impl(case):
     final = (bool(model.training), impl.grad_mode())
     impl.reset_modes()
     return {"trace": log, "raised": raised, "history": hist, "final": final}
+
+
+def run_test_impl(nbt, t0, g0):
+    """Trainer.test(loader) with recording mocks -> (trace with modes, raised, final modes, n_pred)"""
+    import io, contextlib
+    impl = _impl()
+    np, sg = impl.np, impl.synapgrad
+    tm = train_mod()
+    log = []
+    impl.reset_modes()
+
+    class Model:
+        training = t0
+
+        def train(self):
+            rec("TrainMode"); self.training = True; return self
+
+        def eval(self):
+            rec("EvalMode"); self.training = False; return self
+
+        def __call__(self, x):
+            rec("Forward")
+            return sg.Tensor(np.ones((2, 1)))
+    model = Model()
+
+    def rec(e):
+        log.append((e, bool(model.training), impl.grad_mode()))
+
+    class Engine:
+        @staticmethod
+        def no_grad():
+            rec("NoGradNew")
+            real = sg.no_grad()
+
+            class W:
+                def __enter__(s):
+                    rec("NoGradEnter"); return real.__enter__()
+
+                def __exit__(s, *a):
+                    rec("NoGradExit"); return real.__exit__(*a)
+            return W()
+    loader = [(sg.Tensor(np.zeros((2, 3))), sg.Tensor(np.array([0.0, 1.0]))) for _ in range(nbt)]
+    trainer = tm.Trainer(model, Engine)
+    impl.tensor_mod.gradient__ = g0
+    raised = None
+    npred = None
+    try:
+        with contextlib.redirect_stdout(io.StringIO()):
+            y_pred, y_true = trainer.test(loader)
+        npred = (len(y_pred), len(y_true))
+    except Exception as ex:
+        raised = type(ex).__name__
+    final = (bool(model.training), impl.grad_mode())
+    impl.reset_modes()
+    return log, raised, final, npred
 
 
 # ------------------------------------------------------------------ the oracle: property clauses judged directly (no Coq)
@@ -599,13 +665,47 @@ def run(ctx):
     ctx.tie("trainer/empty loaders raise", "correspondence", len(mal), sum(1 for c in mal if c.epochs >= 1), mism2, exhaustive=True,
             note="empty train / validation loaders: fit raises UnboundLocalError on `i`; trace prefix and modes left behind compared with the model")
 
+    # ---- Trainer.test --------------------------------------------------------------------------
+    tcases = [(nbt, t0, g0) for nbt in range(0, 4) for t0 in (False, True) for g0 in (False, True)]
+    tres = [run_test_impl(*tc) for tc in tcases]
+    rows = []
+    for (nbt, t0, g0), (log, raised, final, npred) in zip(tcases, tres):
+        obs = clist(["(%s, (%s, %s))" % (ev_coq(e), cb(t), cb(g)) for e, t, g in log])
+        rows.append("((%d%%nat, %s, %s), (%s, (%s, %s)))" % (nbt, cb(t0), cb(g0), obs, cb(final[0]), cb(final[1])))
+    txt = HEADER + """
+Definition tcases : list ((nat * bool * bool) * (list (ev * (bool * bool)) * (bool * bool))) := [%s].
+Definition tmodel (x : nat * bool * bool) :=
+  match x with (nbt, t0, g0) =>
+    let s0 := {| mtrain := t0; mgrad := g0; msaved := []; mdepth := 0 |} in
+    (annot s0 (test_trace nbt), (mtrain (mrun s0 (test_trace nbt)), mgrad (mrun s0 (test_trace nbt)))) end.
+Eval vm_compute in (mismatches tmodel (pair_eqb obs_eqb (pair_eqb Bool.eqb Bool.eqb)) tcases).
+""" % ";\n ".join(rows)
+    ok, out = ctx.coq_eval("test", txt)
+    lists = parse_natlist(out)
+    mism3 = []
+    if not ok or len(lists) != 1:
+        mism3.append({"error": out[-600:]})
+    else:
+        for i in lists[0]:
+            mism3.append({"test": tcases[i], "implementation_trace": [ev_coq(e) for e, _, _ in tres[i][0]], "modes": [(t, g) for _, t, g in tres[i][0]]})
+    for tc, (log, raised, final, npred) in zip(tcases, tres):
+        if raised or npred != (2 * tc[0], 2 * tc[0]):
+            mism3.append({"test": tc, "raised": raised, "n_pred": npred})
+        # direct judgement: every forward in eval mode with gradients off, grad mode restored
+        if any(e == "Forward" and (t or g) for e, t, g in log) or final[1] != tc[2]:
+            ctx.witness("nn.utils.train.Trainer.test", "test-run", {"batches": tc[0], "model.training before": tc[1], "grad mode before": tc[2]},
+                        "every forward in eval mode under no_grad; gradient mode restored",
+                        {"trace": [ev_coq(e) for e, _, _ in log], "modes": [(t, g) for _, t, g in log], "final": final})
+    ctx.tie("trainer/test trace+modes", "correspondence", len(tcases), sum(1 for tc in tcases if tc[0] >= 1), mism3, exhaustive=True,
+            note="Trainer.test over loaders of 0..3 batches x model.training before x gradient mode before")
+
     # ---- oracle (independent of Coq) ------------------------------------------------------
     verdicts = [(c, r, judge(c, r)) for c, r in zip(cases, results)]
     failing = [(c, r, v) for c, r, v in verdicts if v]
     ctx.extra["oracle_runs_judged"] = len(verdicts)
     if failing:
         c, r, v = min(failing, key=lambda t: (t[0].epochs, t[0].nb, t[0].nbv or 0, len(t[1]["trace"])))
-        ctx.witness("nn.utils.train.Trainer.fit", "fit-run", {"case": c.descr(), "case_seed": None},
+        ctx.witness("nn.utils.train.Trainer.fit", "fit-run", {"case": c.descr()},
                     "one optimizer step per batch after zero_grad/backward in training mode; validation in eval mode under "
                     "no_grad; grad mode restored; one history entry per epoch and metric; loss = mean of batch losses; "
                     "accuracy = fraction of correct predictions",
@@ -632,12 +732,13 @@ def replay(ctx, data):
         problems, info = end_to_end(ctx, ctx.seed % 100000)
         print("problems:", problems)
         return 1 if problems else 0
-    d = data["input"]["case"]
-    # regenerate the same grid (seeded) and pick the case with the same description
-    for c in gen_cases(ctx):
-        if json.loads(json.dumps(c.descr())) == d:
-            r = run_case_impl(c)
-            v = judge(c, r)
-            print("verdict:", v)
-            return 1 if v else 0
-    print("case not found in the seeded grid"); return 2
+    if data["class"] == "test-run":
+        i = data["input"]
+        log, raised, final, npred = run_test_impl(i["batches"], i["model.training before"], i["grad mode before"])
+        bad = raised or any(e == "Forward" and (t or g) for e, t, g in log) or final[1] != i["grad mode before"]
+        print("trace:", log, "final:", final); return 1 if bad else 0
+    c = Case.from_descr(data["input"]["case"])
+    r = run_case_impl(c)
+    v = judge(c, r)
+    print("verdict:", v)
+    return 1 if v else 0
